@@ -135,8 +135,9 @@ class Search:
                     scans.append((n, self.T(n['i'])))
         self.scans = scans
         if len(scans) != 1 or scans[0][0]['k'] != 'CXXForRangeStmt':
-            self.problems.append(('scan-one', self.loop['i'], 'each iteration must scan exactly one neighbourhood (found %d '
-                                                              'neighbour enumerations in the loop body)' % len(scans)))
+            self.problems.append(('scan-one', self.loop['i'], ('expected the neighbourhood to be scanned with a range-for (found a call of %s)' % self.u.decl(scans[0][0]['callee'])['name']) if len(scans) == 1 and 'callee' in scans[0][0] else
+                                  'each iteration must scan exactly one neighbourhood (found %d '
+                                  'neighbour enumerations in the loop body)' % len(scans)))
             return
         scan, r = scans[0]
         self.scan = scan
@@ -188,7 +189,8 @@ class Search:
                 if best is None or d < best[1]:
                     pass
         # choose the element with the smallest region (the statement's own level)
-        regs = [f.region_of_block(f.pos[d][0]) for d in f.descendants(stmt) if d in f.pos]
+        live = f.reachable_blocks()
+        regs = [f.region_of_block(f.pos[d][0]) for d in f.descendants(stmt) if d in f.pos and f.pos[d][0] in live]
         if not regs:
             return frozenset()
         return min(regs, key=len)
@@ -598,6 +600,17 @@ def check_search(m, f, schema, res_wl, res_bound):
         if others:
             ok = False
             why = 'an array element other than the source is written before the loop'
+    if not ok:
+        # the initialisation may have been handed to a helper that receives the arrays by (non-const) reference
+        arrs = {('var', d) for d in (dist_arr, pred_arr) if d is not None} | ({('var', marker[1])} if marker and marker[0] == 'mark' else set())
+        for n in f.nodes:
+            if n['k'] == 'CallExpr' and 'callee' in n and f.unit.decl(n['callee'])['tname'].startswith(NS) and \
+                    f.can_reach_forward(n['i'], s.loop['cond'] if s.loop.get('cond', -1) >= 0 else s.loop['i']):
+                cps = f.unit.decl(n['callee']).get('cptypes', [])
+                for ax, a in enumerate(n.get('args', [])):
+                    if s.T(a) in arrs and ax < len(cps) and cps[ax].endswith('&') and not cps[ax].startswith('const '):
+                        why = 'expected the source to be initialised in the search itself (the arrays are handed to %s before the loop)' \
+                              % f.unit.decl(n['callee'])['name']
     if ok:
         res_wl.ok(dict(function=disp, schema=schema, check='init-source', source=show(src, f.unit)), fn=disp)
     else:
@@ -673,12 +686,44 @@ def check_heap(m, f, res):
                 lt = tt.t(defs[0][1])
                 if lt[0] == 'lambda':
                     lam = u.function_for_decl(lt[1])
+        functor = None
+        if lam is None and cmp_t[0] == 'var':
+            # a named function object of the library: the call operator compares, the constructor binds the key array
+            defs = var_defs(f, cmp_t[1])
+            lt = tt.t(defs[0][1]) if len(defs) == 1 and defs[0][1] >= 0 else ('none',)
+            while lt[0] in ('ctor', 'cast') and lt[2] and not (lt[0] == 'ctor' and lt[1].startswith(NS)):
+                lt = lt[2][0] if lt[0] == 'ctor' else lt[2]
+            if lt[0] == 'ctor' and lt[1].startswith(NS):
+                ops = [g for g in m.fns if g.record == lt[1] and g.name == 'operator()' and not g.is_lambda]
+                ops = [g for g in ops if g.unit is u] or ops
+                ctors = [g for g in m.fns if g.record == lt[1] and g.is_ctor and len(g.params) == len(lt[2])]
+                ctors = [g for g in ctors if g.unit is u] or ctors
+                if len({g.key for g in ops}) == 1 and len({g.key for g in ctors}) == 1:
+                    lam = ops[0]
+                    functor = {}
+                    ctt = Terms(ctors[0])
+                    for i in ctors[0].d.get('inits', []):
+                        if 'field' in i and i.get('init', -1) >= 0:
+                            it = strip_cast(ctt.t(i['init']))
+                            while it[0] in ('ctor', 'cast') and it[2]:
+                                it = strip_cast(it[2][0] if it[0] == 'ctor' else it[2])
+                            fd = ctors[0].unit.decl(i['field'])
+                            if it[0] == 'var' and it[1] in ctors[0].params:
+                                functor[fd['tname']] = (fd, lt[2][ctors[0].params.index(it[1])],
+                                                        ctors[0].cptypes[ctors[0].params.index(it[1])])
         if lam is None:
             res.broken('F-HEAP: comparator of %s is not a local lambda' % disp)
             return
         # the keys the comparator reads must be the live tentative distances: captured by reference, not copied
         lam_expr = [n for n in f.nodes if n['k'] == 'LambdaExpr' and u.function_for_decl(n['callop']) is lam]
         by_value = []
+        if functor is not None:
+            for fn_, (fd, arg, pty) in functor.items():
+                ty = fd.get('ctype', fd.get('type', ''))
+                if ty.replace('const ', '').startswith('std::vector<') and not ty.rstrip().endswith(('&', '*')):
+                    by_value.append(fd['name'])
+                elif pty.replace('const ', '').startswith('std::vector<') and not pty.rstrip().endswith(('&', '*')):
+                    by_value.append(fd['name'])      # (a reference to the constructor's own by-value parameter)
         for le in lam_expr:
             for c in le.get('captures', []):
                 if not c.get('byref') and not c.get('this') and 'd' in c and \
@@ -705,6 +750,13 @@ def check_heap(m, f, res):
                     # captured array: identify in the enclosing function by name
                     an = l[1]
                     nm = lam.unit.decl(an[1])['name'] if an[0] == 'var' else an[-1].split('::')[-1]
+                    if functor is not None:
+                        nm = None
+                        bound = functor.get(an[1]) if an[0] == 'field' else None
+                        if bound is not None and bound[1][0] == 'var':
+                            key_arr = bound[1][1]
+                        else:
+                            ok = False
                     for n in f.nodes:
                         if n['k'] == 'DeclStmt':
                             for d in n['decls']:
